@@ -181,7 +181,11 @@ class NS:
 
     @staticmethod
     def shape(x):
-        return x.shape if isinstance(x, ShArr) else ()
+        if isinstance(x, ShArr):
+            return x.shape
+        if isinstance(x, (list, tuple)):  # nested Python sequences (pad widths)
+            return (len(x),) + (NS.shape(x[0]) if len(x) else ())
+        return ()
 
     @staticmethod
     def iscomplexobj(x):
@@ -256,6 +260,10 @@ class NS:
 
     @staticmethod
     def repeat(x, repeats, axis=None):
+        if isinstance(x, (list, tuple)):  # repeat rows of a nested list along axis 0 (pad widths)
+            if axis != 0:
+                raise TypeError("model: repeat of a nested list only along axis 0")
+            return [row for row in x for _ in range(repeats)]
         if axis is None:
             return ShArr((x.size * repeats,), x.cplx)
         a = _ax(axis, x.ndim)
@@ -294,6 +302,8 @@ class NS:
         xs = list(xs)
         if all(isinstance(x, IntVec) for x in xs):
             return IntVec([e for x in xs for e in x.xs])
+        if all(isinstance(x, (list, tuple)) for x in xs):
+            return [e for x in xs for e in x]
         a = _ax(axis, xs[0].ndim)
         tot = 0
         for x in xs:
@@ -332,6 +342,48 @@ class NS:
         i, j = _ax(i, len(sh)), _ax(j, len(sh))
         sh[i], sh[j] = sh[j], sh[i]
         return ShArr(sh, x.cplx)
+
+    @staticmethod
+    def rollaxis(x, axis, start=0):
+        n = x.ndim
+        axis = _ax(axis, n)
+        if start < 0:
+            start = start + n
+        if not (0 <= start <= n):
+            raise ShapeError("rollaxis: start out of range")
+        if start > axis:
+            start = start - 1
+        axes = list(range(n))
+        axes.remove(axis)
+        axes.insert(start, axis)
+        return ShArr([x.shape[a] for a in axes], x.cplx)
+
+    @staticmethod
+    def moveaxis(x, source, destination):
+        n = x.ndim
+        src = [_ax(a, n) for a in (source if isinstance(source, (tuple, list)) else (source,))]
+        dst = [_ax(a, n) for a in (destination if isinstance(destination, (tuple, list)) else (destination,))]
+        if len(src) != len(dst) or len(set(src)) != len(src) or len(set(dst)) != len(dst):
+            raise ShapeError("moveaxis: bad source / destination")
+        order = [a for a in range(n) if a not in src]
+        for d, s_ in sorted(zip(dst, src)):
+            order.insert(d, s_)
+        return ShArr([x.shape[a] for a in order], x.cplx)
+
+    @staticmethod
+    def pad(x, width, mode="constant"):
+        w = width
+        if isinstance(w, (int,)):
+            w = [[w, w]] * x.ndim
+        elif NS.shape(w) == (1,):
+            w = [[w[0], w[0]]] * x.ndim
+        elif NS.shape(w) == (2,):
+            w = [list(w)] * x.ndim
+        elif NS.shape(w)[0] == 1:
+            w = [list(w[0])] * x.ndim
+        if len(w) != x.ndim:
+            raise ShapeError("pad: width does not match ndim")
+        return ShArr([d + lo + hi for d, (lo, hi) in zip(x.shape, w)], x.cplx)
 
     @staticmethod
     def squeeze(x, axis=None):
